@@ -187,6 +187,17 @@ def run(ck):
         enf_calls(ck, f, r"Curve::is_zero_point$", "is_zero_point", extra_fail=("bool", 1))
         cmp_rejecting(ck, f, [("field", "0"), ("arg", 3)], [("field", "y_tildas")], "Gt", "message-longer-than-key")
         ret_from(ck, f, r"Pairing::check_pairing_eq$", "pairing-equality")
+        # the pairing equation is e(sig.0, X~ * prod Y~_i^m_i) == e(sig.1, g~) with every operand from where the scheme puts it: the
+        # signature's two components, the KEY's x_tilda / y_tildas and the messages, and the KEY's own g_tilda (not a library
+        # constant - a key with another generator would reject its own signatures and accept those of a related key)
+        for (bi, t) in f.calls(r"Pairing::check_pairing_eq$"):
+            oa = [f.origins(x, deep=True) for x in t["args"]]
+            okp = (len(oa) == 4 and ("field", "0") in oa[0] and ("arg", 2) in oa[0]
+                   and {("field", "x_tilda"), ("field", "y_tildas"), ("arg", 3)} <= oa[1]
+                   and ("field", "1") in oa[2] and ("arg", 2) in oa[2]
+                   and ("field", "g_tilda") in oa[3] and not has_call_origin(oa[3], r"one_point$|generator$"))
+            ck.ob("DEFUSE", f.path, "pairing-operands", okp, "e(sig.0, x_tilda * prod y_tildas^m) against e(sig.1, self.g_tilda)" if okp else
+                  "an operand of the pairing equation does not come from where the scheme puts it (4th operand sources: %s)" % sorted(a for a in (oa[3] if len(oa) == 4 else []) if a[0] in ("field", "call")), f.loc(bi))
     f = getfn(ck, "rs", CB, P + "secret::SecretKey::<C>::sign_known_message")
     if f:
         cmp_rejecting(ck, f, [("arg", 2)], [("field", "ys")], "Gt", "message-longer-than-key")
